@@ -120,7 +120,7 @@ def shapes(rng, n, long_ok=True):
     int_digits = [1, 2, 7, 8, 9, 15, 16, 17, 19, 20, 22, 40, 62] + ([300, 600, 3000] if long_ok else [])
     frac_digits = [0, 1, 2, 7, 8, 15, 17, 20, 40] + ([300, 600] if long_ok else [])
     exps = [None, 0, 1, -1, 5, -5, 37, 38, 39, -37, -38, -39, 100, -100, 300, -300, 308, -308, 309, -309, 330, -330, 400,
-            -400, 99999, -99999]
+            -400, 99999, -99999, 100000, -100000, 1234567, -7654321, 18446744073709551616, -99999999999]
     prefixes = ["generic", "max-u64", "max-i64", "nines", "zero-frac"]
     while len(out) < n:
         sign = rng.choice(["", "", "-", "+"])
